@@ -836,6 +836,11 @@ func linear(v ssa.Value, atomName func(ssa.Value) string, depth int) linform {
 	switch x := v.(type) {
 	case *ssa.Const:
 		if x.Value != nil {
+			if !constFitsInt64(x) {
+				// an unsigned constant above MaxInt64 (math.MaxUint64): not a number the int64
+				// arithmetic of the forms can hold - "n > MaxUint64" bounds nothing
+				return linform{atoms: map[string]int{"const:" + x.Value.ExactString(): 1}, ok: true}
+			}
 			return linform{atoms: map[string]int{}, k: constInt64(x), ok: true}
 		}
 	case *ssa.BinOp:
